@@ -666,6 +666,49 @@ def check_case(case_json, rng: Optional[random.Random] = None) -> Optional[C.Fai
                 f = judge_chain(case, prov, u, d, ks, ty, dict(where, keys=ks, type=ty))
                 if f:
                     return f
+    # (e) the provider is a live object: after an identifiable is taken out of its store, references into it no longer
+    #     resolve; after a rebuilt copy is put in, they resolve to the elements of the COPY (never to the old ones)
+    stores = getattr(prov, "providers", None) or [prov]
+    for u, d in enumerate(case.descs):
+        root = case.objs[u][()]
+        holder = next((st for st in stores if root in st), None)
+        try:
+            if holder is None or prov.get_identifiable(d[1]) is not root:
+                continue
+        except KeyError:
+            continue
+        refs = {p: model.ModelReference.from_referable(case.objs[u][p]) for p, _ in T.nodes_of(d)}
+        where = {"case": cj, "uid": u, "path": []}
+        holder.discard(root)
+        shadow = None
+        try:
+            shadow = prov.get_identifiable(d[1])          # another store may hold an identifiable with the same id
+        except KeyError:
+            pass
+        if shadow is None:
+            for p, ref in refs.items():
+                try:
+                    r = ref.resolve(prov)
+                    return C.Failing("ref:resolve:after-discard:still-resolves", f"reference to {shape_sig(d, p)} resolves to "
+                                     f"{case.ident.get(id(r))} after its identifiable was discarded from the store", dict(where, path=list(p)))
+                except KeyError:
+                    pass
+                except Exception as e:
+                    return C.Failing("ref:resolve:after-discard:raises:" + type(e).__name__, repr(e)[:160], dict(where, path=list(p)))
+        m2: Dict[Tuple[int, ...], Any] = {}
+        T.build(copy.deepcopy(case_json["descs"][u]), m2)
+        holder.add(m2[()])
+        if shadow is None:
+            for p, ref in refs.items():
+                try:
+                    r = ref.resolve(prov)
+                except Exception as e:
+                    return C.Failing("ref:resolve:after-replace:raises:" + type(e).__name__, repr(e)[:160], dict(where, path=list(p)))
+                if r is not m2[p]:
+                    return C.Failing("ref:resolve:after-replace:old-element", f"reference to {shape_sig(d, p)} does not resolve to the "
+                                     f"element of the identifiable that is in the store now", dict(where, path=list(p)))
+        holder.discard(m2[()])
+        holder.add(root)
     return None
 
 
